@@ -1,8 +1,8 @@
 package main
 
 import (
-	"os"
 	"fmt"
+	"os"
 	"runtime"
 	"sync"
 	"sync/atomic"
@@ -41,8 +41,8 @@ func c01Cfgs() []c01cfg {
 }
 
 type c01pki struct {
-	ca         *certs.CA
-	cert, key  []byte
+	ca        *certs.CA
+	cert, key []byte
 }
 
 var c01certs *c01pki
@@ -240,7 +240,7 @@ run:
 					return
 				}
 			}
-			time.Sleep(50 * time.Millisecond)
+			time.Sleep(1200 * time.Millisecond) // the consumer is busy elsewhere for more than a second
 			for i := 0; i < burst; i++ {
 				m := recv()
 				if m == nil {
